@@ -85,8 +85,14 @@ class SphinxRenderer(DocutilsRenderer):
         path_dest, *_path_ids = destination.split("#", maxsplit=1)
         path_id = _path_ids[0] if _path_ids else None
         explicit = (token.info != "auto") and (len(token.children or []) > 0)
-        _, abs_path = self.sphinx_env.relfn2path(path_dest, self.sphinx_env.docname)
-        docname = self.sphinx_env.path2doc(abs_path)
+        try:
+            _, abs_path = self.sphinx_env.relfn2path(
+                path_dest, self.sphinx_env.docname
+            )
+            docname = self.sphinx_env.path2doc(abs_path)
+        except (OSError, ValueError):
+            # e.g. an embedded null byte, or a name that is too long
+            abs_path, docname = path_dest, None
         if not docname:
             self.create_warning(
                 f"Could not find document: {abs_path}",
@@ -140,10 +146,17 @@ class SphinxRenderer(DocutilsRenderer):
 
         potential_path: None | Path = None
         if self.sphinx_env.srcdir:  # not set in some test situations
-            _, path_str = self.sphinx_env.relfn2path(path_dest, self.sphinx_env.docname)
-            potential_path = Path(path_str)
+            try:
+                _, path_str = self.sphinx_env.relfn2path(
+                    path_dest, self.sphinx_env.docname
+                )
+                if Path(path_str).is_file():
+                    potential_path = Path(path_str)
+            except (OSError, ValueError):
+                # e.g. an embedded null byte, or a name that is too long
+                pass
 
-        if potential_path and potential_path.is_file():
+        if potential_path:
             docname = self.sphinx_env.path2doc(str(potential_path))
             if docname:
                 wrap_node = addnodes.pending_xref(
